@@ -340,6 +340,9 @@ Arguments rs_label : clear implicits.
 Arguments rs_entry : clear implicits.
 Arguments rs_mems : clear implicits.
 
+(* a correct boolean equality on keys *)
+Definition rs_lawful {K : Type} (keqb : K -> K -> bool) : Prop := forall a b, keqb a b = true <-> a = b.
+
 (* ---------- the concrete key: ResourceMemories._build_key on a raw body ---------- *)
 (* Python truthiness of a JSON-like value *)
 Definition rs_truthy (j : json) : bool :=
